@@ -9,8 +9,10 @@ use lc3_ensemble::sim::MemAccessCtx;
 use std::collections::BTreeMap;
 
 /// Per-run variant: the observer accumulates over a whole `run_with_limit`; compare with the union of the reference logs.
-fn run_variant(len: usize, idx: u64, flags: u64) -> Result<u64, (String, String)> {
-    let (m, words) = program_machine(len, idx, flags);
+fn run_variant(len: usize, idx: u64, flags: u64) -> Result<u64, (String, String)> { run_variant_on(program_machine(len, idx, flags), flags) }
+/// the same for the self-referential programs: stores that patch an instruction which is fetched later in the same run, loads of the next instruction ...
+fn run_selfref(len: usize, idx: u64, flags: u64) -> Result<u64, (String, String)> { run_variant_on(selfref_machine(len, idx, flags), flags) }
+fn run_variant_on((m, words): (Machine, Vec<u16>), flags: u64) -> Result<u64, (String, String)> {
     let mut p = build(&m);
     let mut exp: BTreeMap<u16, (bool, bool, bool)> = BTreeMap::new();
     let mut steps = 0u64;
@@ -197,6 +199,10 @@ pub fn run(ctx: &Ctx) -> Report {
                 Ok(steps) => { acc.transitions += steps; acc.traces += 1; acc.nontrivial += 1; }
                 Err((sig, d)) => if sig.starts_with("observer") || sig.starts_with("panic") { acc.violation(sig, format!("sr:{len}:{idx}:{flags}"), d) },
             }
+            match run_selfref(len, idx, flags) {
+                Ok(steps) => { acc.transitions += steps; acc.traces += 1; }
+                Err((sig, d)) => if sig.starts_with("observer") || sig.starts_with("panic") { acc.violation(sig, format!("srr:{len}:{idx}:{flags}"), d) },
+            }
         });
         rep.absorb(r);
     }
@@ -216,6 +222,7 @@ pub fn replay(case: &str) -> Option<String> {
         "s1" => s1(n(1)?, n(2)? as u16, true).map(|_| ()),
         "s2" => match n(4)? { 0 => s2(n(1)? as usize, n(2)?, n(3)?, true).map(|_| ()), 1 => run_variant(n(1)? as usize, n(2)?, n(3)?).map(|_| ()), 2 => peek_variant(n(1)? as usize, n(2)?, n(3)?).map(|_| ()), _ => stepover_variant(n(1)? as usize, n(2)?, n(3)?).map(|_| ()) },
         "long" => long_variant(n(1)?).map(|_| ()),
+        "srr" => run_selfref(n(1)? as usize, n(2)?, n(3)?).map(|_| ()),
         "sr" => peek_selfref(n(1)? as usize, n(2)?, n(3)?).map(|_| ()),
         _ => return None,
     };
